@@ -13,6 +13,9 @@ import (
 	"github.com/dtn7/dtn7-go/pkg/cla/tcpclv4/internal/msgs"
 )
 
+// maxSegmentSize limits the payload of a single outgoing XFER_SEGMENT, whatever MRU the peer declared.
+const maxSegmentSize uint64 = 1 << 20
+
 // OutgoingTransfer represents an outgoing Bundle Transfer for the TCPCLv4.
 type OutgoingTransfer struct {
 	Id uint64
@@ -59,6 +62,15 @@ func (t *OutgoingTransfer) NextSegment(mtu uint64) (dtm *msgs.DataTransmissionMe
 	if t.startFlag {
 		t.startFlag = false
 		segFlags |= msgs.SegmentStart
+	}
+
+	// The MTU was declared by the peer: zero would produce empty segments forever, a huge value would allocate
+	// (or fail to allocate) that much for every segment. Sending segments smaller than the peer's MRU is fine.
+	if mtu == 0 {
+		err = fmt.Errorf("segment MTU of zero octets")
+		return
+	} else if mtu > maxSegmentSize {
+		mtu = maxSegmentSize
 	}
 
 	var buf = make([]byte, mtu)
